@@ -10,6 +10,7 @@ almost never intended in this code base; the few instances on the reviewed tree 
   parallel-copy       the statements of one block that copy an element of several parallel arrays into position d read different
                       source positions
   narrow-accumulate   std::accumulate seeded with an int (float) literal whose result is used as a wider type
+  swapped-dealloc     a freshly allocated local pointer is swapped with another pointer and then released with its own size
   stale-cursor        a loop steps one pointer cursor while it dereferences a second pointer (the start of another array) that
                       is never advanced
 Each lint carries a positive control that must be recognised on every run."""
@@ -291,6 +292,41 @@ def narrow_accumulate_nodes(fn):
     return out
 
 
+def swapped_dealloc_nodes(fn):
+    """`T* p = alloc.allocate(n); ...; std::swap(member_, p); alloc.deallocate(p, n);` - after the swap p is the OTHER block, which
+    was allocated with its own size: releasing it with n hands the allocator a wrong size"""
+    from triggers import _loc_key
+    out = []
+    allocs = {}
+
+    def dv(n):
+        if n.get("k") == "Decl":
+            for v in n.get("vars", []):
+                ini = strip_all(v.get("init") or {})
+                if "d" in v and ini.get("k") == "Call" and ini.get("cname") == "allocate" and ini.get("args"):
+                    allocs[v["d"]] = (v, txt(ini["args"][0]).replace(" ", ""))
+    walk(fn.get("body"), dv)
+    if not allocs:
+        return out
+    swaps, deallocs = [], []
+
+    def sv(n):
+        if n.get("k") == "Call" and n.get("cname") == "swap" and len(n.get("args", [])) == 2:
+            for a in n["args"]:
+                a = strip_all(a)
+                if a.get("k") == "Ref" and a.get("d") in allocs:
+                    swaps.append((n, a["d"]))
+        if n.get("k") == "Call" and n.get("cname") == "deallocate" and len(n.get("args", [])) == 2:
+            a = strip_all(n["args"][0])
+            if a.get("k") == "Ref" and a.get("d") in allocs:
+                deallocs.append((n, a["d"], txt(n["args"][1]).replace(" ", "")))
+    walk(fn.get("body"), sv)
+    for dn, d, size in deallocs:
+        if size == allocs[d][1] and any(sd == d and _loc_key(sn) < _loc_key(dn) for sn, sd in swaps):
+            out.append((dn, allocs[d][0], size))
+    return out
+
+
 def hazards(facts, fams=None):
     fns = functions_by(facts)
     _BY_PAT.clear()
@@ -321,6 +357,8 @@ def hazards(facts, fams=None):
             found.append(("parallel-copy", base, items[0][0].get("loc"), "the element copied into position `%s` is read from different source positions (%s) in the statements of one block: parallel arrays (items / weights / marks) get out of step" % (di, ", ".join(sorted(set(x[1] for x in items))))))
         for n, rt, wt in narrow_accumulate_nodes(fn):
             found.append(("narrow-accumulate", base, n.get("loc"), "std::%s accumulates in `%s` (the type of its initial value) and the result is then widened to `%s`: the partial sums are truncated to the narrow type, whatever the element type and the binary operation return (e.g. a total weight above 2^31 wraps)" % (n.get("cname"), rt, wt)))
+        for dn, v, size in swapped_dealloc_nodes(fn):
+            found.append(("swapped-dealloc", "%s:%s" % (base, v.get("n")), dn.get("loc"), "`%s` was allocated with `%s` but has been swapped with another pointer before it is released with the same `%s`: the block released is the other one, which was allocated with its own size - an allocator that uses the size passed to deallocate (pools, accounting) is handed a wrong one" % (v.get("n"), size, size)))
         for L, q in stale_cursor_nodes(fn):
             found.append(("stale-cursor", "%s:%s" % (base, q.get("n")), L.get("loc"), "the loop steps a pointer over one array but dereferences `%s` (the start of another array) without ever advancing it: every iteration reads element 0 of that array instead of the element that corresponds to the current position" % q.get("n")))
         cnt = {}
@@ -333,7 +371,7 @@ def hazards(facts, fams=None):
                 out.append(ob("lint.hazard", k, loc or fn["pat"], "info", "reviewed instance: %s" % exc[k], fn["qname"]))
             else:
                 out.append(ob("lint.hazard", k, loc or fn["pat"], "violated", detail, fn["qname"]))
-    out.append(ob("lint.hazard", "all:functions-scanned", "", "discharged", "%d functions scanned for 9 hazard patterns" % scanned, ""))
+    out.append(ob("lint.hazard", "all:functions-scanned", "", "discharged", "%d functions scanned for 10 hazard patterns" % scanned, ""))
     # positive controls
     ctl_fn = {"body": {"k": "Block", "s": [
         {"k": "Expr", "e": {"k": "Call", "cname": "f", "callee": "datasketches::f", "args": [{"k": "Cast", "impl": True, "ck": "IntegralCast", "from": "unsigned long", "t": "unsigned int", "e": {"k": "Ref", "n": "seed", "d": 1, "dk": "param", "t": "unsigned long"}}]}},
